@@ -33,6 +33,21 @@ def arm(enum, name):
     return [(r'%s::%s\s*=>' % (enum, name), None)]
 
 
+def common_pib_sites(pre, file, impl, R):
+    """mask-length test, validate_buffers arguments and the returned pair of process_into_buffer"""
+    return [
+        Site(pre + '_mask_bad', file, impl, 'process_into_buffer', 'ifcond', nth=0, selfrec=R, ty='bool'),
+        Site(pre + '_val_channels', file, impl, 'process_into_buffer', 'callarg', callee='validate_buffers', arg=3, selfrec=R, ty='usize'),
+        Site(pre + '_val_min_in', file, impl, 'process_into_buffer', 'callarg', callee='validate_buffers', arg=4, selfrec=R, ty='usize'),
+        Site(pre + '_val_min_out', file, impl, 'process_into_buffer', 'callarg', callee='validate_buffers', arg=5, selfrec=R, ty='usize',
+             types={'needed_len': 'usize'}),
+        Site(pre + '_ret_in', file, impl, 'process_into_buffer', 'callarg', callee='Ok', arg=0, nth=-1, selfrec=R, ty='usize',
+             pre=r'^\(\s*(.*?)\s*,[^,]*\)$', callee_re=r'\bOk'),
+        Site(pre + '_ret_out', file, impl, 'process_into_buffer', 'callarg', callee='Ok', arg=0, nth=-1, selfrec=R, ty='usize',
+             pre=r'^\(.*,\s*([^,]*?)\s*\)$', callee_re=r'\bOk', types={'n': 'usize', 'needed_len': 'usize'}),
+    ]
+
+
 def fast_sites():
     s = []
     yl = {'yvals': 'T'}
@@ -105,6 +120,7 @@ def fast_sites():
         Site('fo_new_last_index', FAST, C_FO, 'new', 'field_init', field='last_index', ty='f64'),
         Site('fo_shift_lo', FAST, I_FO, 'process_into_buffer', 'range_lo', marker=r'buf\.copy_within\(', selfrec=R, ty='usize'),
         Site('fo_shift_hi', FAST, I_FO, 'process_into_buffer', 'range_hi', marker=r'buf\.copy_within\(', selfrec=R, ty='usize'),
+        Site('fo_shift_dst', FAST, I_FO, 'process_into_buffer', 'callarg', callee='buf.copy_within', arg=1, selfrec=R, ty='usize'),
         Site('fo_fill_next', FAST, I_FO, 'process_into_buffer', 'assign', target='self.current_buffer_fill', selfrec=R, ty='usize'),
         Site('fo_fill_lo', FAST, I_FO, 'process_into_buffer', 'range_lo', marker=r'self\.buffer\[chan\]\[', selfrec=R, ty='usize'),
         Site('fo_fill_hi', FAST, I_FO, 'process_into_buffer', 'range_hi', marker=r'self\.buffer\[chan\]\[', selfrec=R, ty='usize'),
@@ -155,6 +171,9 @@ def fast_sites():
             s += [
                 Site(p + 'point', FAST, I_FO, 'process_into_buffer', 'callarg', callee='x', arg=0, within=w, selfrec=R, ty='usize', callee_re=r'\.get_unchecked\(chan\)\s*\.get_unchecked'),
             ]
+
+    for pre, impl, R in (('fi', I_FI, 'FastFixedIn'), ('fo', I_FO, 'FastFixedOut')):
+        s += common_pib_sites(pre, FAST, impl, R)
     return s
 
 
@@ -181,6 +200,9 @@ def sinc_sites():
         Site('si_end_idx', SINC, I_SI, 'process_into_buffer', 'let', var='end_idx', selfrec=R, ty='isize'),
         Site('si_shift_lo', SINC, I_SI, 'process_into_buffer', 'range_lo', marker=r'buf\.copy_within\(', selfrec=R, ty='usize'),
         Site('si_shift_hi', SINC, I_SI, 'process_into_buffer', 'range_hi', marker=r'buf\.copy_within\(', selfrec=R, ty='usize'),
+        Site('si_shift_dst', SINC, I_SI, 'process_into_buffer', 'callarg', callee='buf.copy_within', arg=1, selfrec=R, ty='usize'),
+        Site('si_sinc_len', SINC, I_SI, 'process_into_buffer', 'let', var='sinc_len', selfrec=R, ty='usize'),
+        Site('si_oversampling_factor', SINC, I_SI, 'process_into_buffer', 'let', var='oversampling_factor', selfrec=R, ty='usize'),
         Site('si_fill_next', SINC, I_SI, 'process_into_buffer', 'assign', target='self.current_buffer_fill', selfrec=R, ty='usize'),
         Site('si_fill_lo', SINC, I_SI, 'process_into_buffer', 'range_lo', marker=r'self\.buffer\[chan\]\[', selfrec=R, ty='usize'),
         Site('si_fill_hi', SINC, I_SI, 'process_into_buffer', 'range_hi', marker=r'self\.buffer\[chan\]\[', selfrec=R, ty='usize'),
@@ -225,6 +247,9 @@ def sinc_sites():
         Site('so_update_needed_len', SINC, C_SO, 'update_needed_len', 'assign', target='self.needed_input_size', selfrec=R, ty='usize'),
         Site('so_shift_lo', SINC, I_SO, 'process_into_buffer', 'range_lo', marker=r'buf\.copy_within\(', selfrec=R, ty='usize'),
         Site('so_shift_hi', SINC, I_SO, 'process_into_buffer', 'range_hi', marker=r'buf\.copy_within\(', selfrec=R, ty='usize'),
+        Site('so_shift_dst', SINC, I_SO, 'process_into_buffer', 'callarg', callee='buf.copy_within', arg=1, selfrec=R, ty='usize'),
+        Site('so_sinc_len', SINC, I_SO, 'process_into_buffer', 'let', var='sinc_len', selfrec=R, ty='usize'),
+        Site('so_oversampling_factor', SINC, I_SO, 'process_into_buffer', 'let', var='oversampling_factor', selfrec=R, ty='usize'),
         Site('so_fill_next', SINC, I_SO, 'process_into_buffer', 'assign', target='self.current_buffer_fill', selfrec=R, ty='usize'),
         Site('so_fill_lo', SINC, I_SO, 'process_into_buffer', 'range_lo', marker=r'self\.buffer\[chan\]\[', selfrec=R, ty='usize'),
         Site('so_fill_hi', SINC, I_SO, 'process_into_buffer', 'range_hi', marker=r'self\.buffer\[chan\]\[', selfrec=R, ty='usize'),
@@ -267,6 +292,9 @@ def sinc_sites():
         ]
         if d != 'Nearest':
             s.append(Site(p + 'frac', SINC, I_SO, 'process_into_buffer', 'let', var='frac', within=w, selfrec=R, ty='f64'))
+
+    for pre, impl, R in (('si', I_SI, 'SincFixedIn'), ('so', I_SO, 'SincFixedOut')):
+        s += common_pib_sites(pre, SINC, impl, R)
     return s
 
 
@@ -322,8 +350,38 @@ def syn_sites():
         Site('xio_output_delay', SYN, I_XIO, 'output_delay', 'body', selfrec=R, ty='usize'),
     ]
     s += [
+        Site('xio_in_hi', SYN, I_XIO, 'process_into_buffer', 'range_hi', marker=r'wave_in\[channel\]\.as_ref\(\)\[', selfrec='FftFixedInOut', ty='usize'),
+        Site('xio_out_hi', SYN, I_XIO, 'process_into_buffer', 'range_hi', marker=r'wave_out\[channel\]\.as_mut\(\)\[', selfrec='FftFixedInOut', ty='usize'),
+        Site('xo_in_hi', SYN, I_XO, 'process_into_buffer', 'range_hi', marker=r'wave_in\[chan\]\.as_ref\(\)\[', selfrec='FftFixedOut', ty='usize'),
+        Site('xo_in_chunk', SYN, I_XO, 'process_into_buffer', 'callarg', callee='.chunks', arg=0, selfrec='FftFixedOut', ty='usize', callee_re=r'\.chunks'),
+        Site('xo_obuf_lo', SYN, I_XO, 'process_into_buffer', 'range_lo', marker=r'self\.output_buffers\[chan\]\[', nth=0, selfrec='FftFixedOut', ty='usize'),
+        Site('xo_out_chunk', SYN, I_XO, 'process_into_buffer', 'callarg', callee='.chunks_mut', arg=0, selfrec='FftFixedOut', ty='usize', callee_re=r'\.chunks_mut'),
+        Site('xo_copy_hi', SYN, I_XO, 'process_into_buffer', 'range_hi', marker=r'wave_out\[chan\]\.as_mut\(\)\[', selfrec='FftFixedOut', ty='usize'),
+        Site('xo_copy_src_hi', SYN, I_XO, 'process_into_buffer', 'range_hi', marker=r'copy_from_slice\(&self\.output_buffers\[chan\]\[', selfrec='FftFixedOut', ty='usize'),
+        Site('xo_keep_lo', SYN, I_XO, 'process_into_buffer', 'range_lo', marker=r'self\.output_buffers\[chan\]\.copy_within\(', selfrec='FftFixedOut', ty='usize'),
+        Site('xo_keep_hi', SYN, I_XO, 'process_into_buffer', 'range_hi', marker=r'self\.output_buffers\[chan\]\.copy_within\(', selfrec='FftFixedOut', ty='usize'),
+        Site('xi_skip', SYN, I_XI, 'process_into_buffer', 'callarg', callee='.skip', arg=0, selfrec='FftFixedIn', ty='usize', callee_re=r'\.skip'),
+        Site('xi_take', SYN, I_XI, 'process_into_buffer', 'callarg', callee='.take', arg=0, nth=0, selfrec='FftFixedIn', ty='usize', callee_re=r'\.take'),
+        Site('xi_in_chunk', SYN, I_XI, 'process_into_buffer', 'callarg', callee='.chunks', arg=0, selfrec='FftFixedIn', ty='usize', callee_re=r'\.chunks'),
+        Site('xi_take_chunks', SYN, I_XI, 'process_into_buffer', 'callarg', callee='.take', arg=0, nth=1, selfrec='FftFixedIn', ty='usize', callee_re=r'\.take'),
+        Site('xi_out_chunk', SYN, I_XI, 'process_into_buffer', 'callarg', callee='.chunks_mut', arg=0, selfrec='FftFixedIn', ty='usize', callee_re=r'\.chunks_mut'),
+        Site('xi_keep_cond', SYN, I_XI, 'process_into_buffer', 'ifcond', nth=0, selfrec='FftFixedIn', ty='bool',
+             within=[(r'let extra', r'self\.saved_frames = extra')]),
+        Site('xi_keep_lo', SYN, I_XI, 'process_into_buffer', 'range_lo', marker=r'self\.input_buffers\[chan\]\.copy_within\(', selfrec='FftFixedIn', ty='usize'),
+        Site('xi_keep_hi', SYN, I_XI, 'process_into_buffer', 'range_hi', marker=r'self\.input_buffers\[chan\]\.copy_within\(', selfrec='FftFixedIn', ty='usize'),
+        Site('xi_saved_mid', SYN, I_XI, 'process_into_buffer', 'assign', target='self.saved_frames', nth=0, selfrec='FftFixedIn', ty='usize'),
+        Site('xi_saved_end', SYN, I_XI, 'process_into_buffer', 'assign', target='self.saved_frames', nth=1, selfrec='FftFixedIn', ty='usize'),
+        Site('xi_reset_saved_frames', SYN, I_XI, 'reset', 'assign', target='self.saved_frames', selfrec='FftFixedIn', ty='usize'),
+        Site('xi_new_ibuf_len', SYN, C_XI, 'new', 'let', var='input_buffers', ty='usize', pre=r'vec!\[vec!\[T::zero\(\);\s*(.*?)\];\s*nbr_channels\]'),
+        Site('xi_new_overlap_len', SYN, C_XI, 'new', 'let', var='overlaps', ty='usize', pre=r'vec!\[vec!\[T::zero\(\);\s*(.*?)\];\s*nbr_channels\]'),
+        Site('xo_new_obuf_len', SYN, C_XO, 'new', 'let', var='output_buffers', ty='usize', pre=r'vec!\[vec!\[T::zero\(\);\s*(.*?)\];\s*nbr_channels\]'),
+        Site('xo_new_overlap_len', SYN, C_XO, 'new', 'let', var='overlaps', ty='usize', pre=r'vec!\[vec!\[T::zero\(\);\s*(.*?)\];\s*nbr_channels\]'),
+        Site('xio_new_overlap_len', SYN, C_XIO, 'new', 'let', var='overlaps', ty='usize', pre=r'vec!\[vec!\[T::zero\(\);\s*(.*?)\];\s*nbr_channels\]'),
         Site('unit_new_len', SYN, C_XR, 'resample_unit', 'let', var='new_len', selfrec='FftResampler', ty='usize'),
     ]
+
+    for pre, impl, R in (('xi', I_XI, 'FftFixedIn'), ('xo', I_XO, 'FftFixedOut'), ('xio', I_XIO, 'FftFixedInOut')):
+        s += common_pib_sites(pre, SYN, impl, R)
     return s
 
 
